@@ -49,7 +49,7 @@ def strat(tier):
         'umask': st.integers(0, len(UMASKS) - 1),
         'dest': st.one_of(st.none(), st.integers(1, len(PERMS) - 1)),      # None absent, else index of its mode
         'part': st.sampled_from([False, False, True]),
-        'body': st.sampled_from(['normal', 'normal', 'normal', 'raise0', 'raise1', 'raise2', 'race', 'nothing', 'closeraise', 'closereturn']),
+        'body': st.sampled_from(['normal', 'normal', 'normal', 'raise0', 'raise1', 'raise2', 'race', 'race_late', 'nothing', 'closeraise', 'closereturn']),
         # the bytes written are identical to what the destination (or the racing writer's file) already holds
         'same': st.sampled_from([False, False, False, True]),
         'errno': st.integers(0, len(ERRNOS) - 1),
@@ -121,6 +121,16 @@ def _body(case, sandbox, body_kind, api):
         if case['text_mode']:
             chunks = [c.decode('ascii') for c in chunks]
         res = {'outcome': 'returned'}
+
+        def racer():
+            fd = os.open(dest, os.O_WRONLY | os.O_CREAT | os.O_EXCL, 0o644)
+            os.write(fd, _race(case))
+            os.close(fd)
+            os.chmod(dest, 0o644)
+        if body_kind == 'race_late':
+            # the competitor's file appears at the last possible moment: after every check the saver makes on its way out, straight
+            # before the call that moves the part file into place
+            ip.before_publish = ('dest.txt', racer)
 
         def work(f):
             if body_kind == 'nothing':
@@ -211,7 +221,7 @@ def evaluate(case, initial, res, events, fired, state, out, cfg, sandbox):
     umask = UMASKS[case['umask']]
     listed_fault = any(events[i]['kind'] in LISTED for i in fired)
     cleanup_fault = any(events[i]['kind'] in CLEANUP for i in fired)
-    refusal = (not case['overwrite']) and (dest0 is not None or body_kind == 'race')
+    refusal = (not case['overwrite']) and (dest0 is not None or body_kind in ('race', 'race_late'))
     part_blocks = part0 is not None and not case['overwrite_part']
     completed_expected = not (body_raises or listed_fault or refusal or part_blocks)
     if body_kind == 'closereturn' and res['outcome'] != 'returned':
@@ -252,6 +262,8 @@ def evaluate(case, initial, res, events, fired, state, out, cfg, sandbox):
         first_w = next(i for i, e in enumerate(events) if e['kind'] == 'f.write')
         if not any(i <= first_w for i in fired if events[i]['kind'] in LISTED):
             exp_dest = (_race(case), 0o644)
+    if body_kind == 'race_late' and res.get('publish_hook_fired'):
+        exp_dest = (_race(case), 0o644)
     if dest1 != exp_dest:
         out.fail('c05.destination-changed', 'destination changed by a save that did not complete (expected %s): %s' % (
             None if exp_dest is None else ('%d bytes' % len(exp_dest[0]), oct(exp_dest[1])), where))
@@ -296,7 +308,7 @@ def evaluate(case, initial, res, events, fired, state, out, cfg, sandbox):
 
 def run(case):
     out = Outcome()
-    if case['body'] == 'race' and (case['overwrite'] or case['dest'] is not None):
+    if case['body'] in ('race', 'race_late') and (case['overwrite'] or case['dest'] is not None):
         case = dict(case, body='normal')        # the race is only defined for overwrite=False with an absent destination
     sandbox = os.path.realpath(tempfile.mkdtemp(prefix='c05_'))
     try:
@@ -317,7 +329,7 @@ def run(case):
         triggered = 0
         if not evaluate(case, initial, res, events, [], _state(sandbox), out, cfg, sandbox):
             return out
-        if (not case['overwrite'] and (case['dest'] is not None or case['body'] == 'race')) or case['body'].startswith('raise') or case['body'].startswith('close') or \
+        if (not case['overwrite'] and (case['dest'] is not None or case['body'] in ('race', 'race_late'))) or case['body'].startswith('raise') or case['body'].startswith('close') or \
                 (case['part'] and not case['overwrite_part']):
             triggered += 1
         e1 = ERRNOS[case['errno']]
@@ -354,11 +366,13 @@ def run(case):
         out.label('fault_runs:%d' % (4 * (runs // 4)))
         if case['pairs']:
             out.label('pairs_enumerated')
-        if not case['overwrite'] and (case['dest'] is not None or case['body'] == 'race'):
+        if not case['overwrite'] and (case['dest'] is not None or case['body'] in ('race', 'race_late')):
             out.label('refusal')
         if case['body'].startswith('raise'):
             out.label('body_raises')
             out.label('body_raises:' + case.get('exc', 'plain'))
+        if case['body'] == 'race_late':
+            out.label('destination_appears_straight_before_publication')
         if case['api'] == 'reuse':
             out.label('saver_object_reused')
         if case['body'].startswith('close'):
